@@ -121,6 +121,59 @@ theorem no_variant_is_err (vs : List Variant) (n : Int)
     obtain ⟨⟨v, hv, hf, hd⟩, _⟩ := (try_from_iff vs n k).1 ht
     exact absurd hd (h k v hv hf)
 
+/-! ### In the representation type -/
+
+theorem wrap_of_fits (r : Range) (x : Int) (h : r.fits x = true) : r.wrap x = x := by
+  simp only [Range.fits, Bool.and_eq_true, decide_eq_true_eq] at h
+  unfold Range.wrap Range.size
+  rw [Int.emod_eq_of_lt (by omega) (by omega)]
+  omega
+
+theorem wrap_add_wrap (r : Range) (a b : Int) : r.wrap (a + r.wrap b) = r.wrap (a + b) := by
+  unfold Range.wrap
+  have : a + ((b - r.lo) % r.size + r.lo) - r.lo = a + (b - r.lo) % r.size := by omega
+  rw [this, Int.add_emod_emod]
+  have : a + (b - r.lo) = a + b - r.lo := by omega
+  rw [this]
+
+/-- A discriminant that fits the representation type is computed exactly, however large the
+distance from the last explicit discriminant is (it may exceed the type's positive range). -/
+theorem constW_exact (r : Range) (last : Int) (inc : Nat) (h : r.fits (last + inc) = true) :
+    constW r last inc = last + inc := by
+  unfold constW
+  rw [wrap_add_wrap, wrap_of_fits r _ h]
+
+theorem constsFromW_eq (r : Range) (vs : List Variant) : ∀ (last : Int) (inc : Nat),
+    (∀ x ∈ constsFrom last inc vs, r.fits x = true) →
+    constsFromW r last inc vs = constsFrom last inc vs := by
+  induction vs with
+  | nil => intros; rfl
+  | cons v vs ih =>
+    intro last inc h
+    cases hd : v.discr with
+    | none =>
+      simp only [constsFrom, constsFromW, hd] at h ⊢
+      rw [constW_exact r last inc (h _ (by simp)), ih last (inc + 1) (fun x hx => h x (by simp [hx]))]
+    | some d =>
+      simp only [constsFrom, constsFromW, hd] at h ⊢
+      have h0 := h (d + ((0 : Nat) : Int)) (by simp)
+      rw [constW_exact r d 0 h0, ih d (0 + 1) (fun x hx => h x (by simp [hx]))]
+
+/-- **Whenever rustc accepts the enum** (every discriminant is a value of the representation
+type), the generated constants, computed in that type, are the discriminants — for every number
+of variants and every integer width. -/
+theorem consts_in_repr_are_discriminants (r : Range) (vs : List Variant)
+    (h : ∀ x ∈ discrs vs, r.fits x = true) : constsW r vs = discrs vs := by
+  unfold constsW
+  rw [constsFromW_eq r vs 0 0 (by rw [show constsFrom 0 0 vs = consts vs from rfl, const_is_discriminant]; exact h)]
+  exact const_is_discriminant vs
+
+/-- The defect of the pinned tree (fixed): `#[repr(i8)] enum E { A0 = -1, A1, .., A128 }` is a
+valid enum (`A128 = 127`), but `(-1) + 128` with `128` read as an `i8` literal is `-1 + -128`,
+which overflows: the derive did not compile. The wrapping form gives 127. -/
+theorem i8_far_variant_witness :
+    constChecked i8 (-1) 128 = none ∧ constW i8 (-1) 128 = 127 ∧ i8.fits (-1 + 128) = true := by decide
+
 /-- The representation type: a single integer hint among any other hints, else `isize`. -/
 theorem repr_single_attr (hs : List Hint) :
     reprOf [hs] = .ok ((attrRepr hs).getD .isize) := by
